@@ -15,7 +15,7 @@ this to code whose operands are sizes, versions, levels and mask numbers.
 """
 import ast
 
-from .ev import ev, Sym, FuncRef, _bind, PyRaise, RepoExc, exc_issub
+from .ev import ev, Sym, FuncRef, _bind, PyRaise, RepoExc, exc_issub, Scope
 from .src import Unknown
 
 
@@ -69,29 +69,48 @@ class Interp:
         fn = fv.node
         a = fn.args
         names = [x.arg for x in a.posonlyargs + a.args]
-        env = dict(fv.genv)
+        env = Scope(fv.genv)
         defaults = dict(zip(names[len(names) - len(a.defaults):], a.defaults))
-        if len(args) > len(names):
-            raise Unknown(f'too many arguments for {fn.name}')
+        if len(args) > len(names) and a.vararg is None:
+            raise PyRaise(TypeError, fn, f'{fn.name}() takes {len(names)} positional arguments but {len(args)} were given')
         bound = dict(zip(names, args))
+        if a.vararg is not None:
+            bound[a.vararg.arg] = tuple(args[len(names):])
+        extra = {}
         for k, v in kw.items():
             if k not in names and k not in [x.arg for x in a.kwonlyargs]:
-                raise Unknown(f'unexpected keyword {k} for {fn.name}')
+                if a.kwarg is None:
+                    raise PyRaise(TypeError, fn, f'{fn.name}() got an unexpected keyword argument {k!r}')
+                extra[k] = v
+                continue
+            if k in bound:
+                raise PyRaise(TypeError, fn, f'{fn.name}() got multiple values for argument {k!r}')
             bound[k] = v
+        if a.kwarg is not None:
+            bound[a.kwarg.arg] = extra
         for n in names:
             if n not in bound:
                 if n in defaults:
                     bound[n] = ev(defaults[n], fv.genv)
                 else:
-                    raise Unknown(f'missing argument {n} for {fn.name}')
+                    raise PyRaise(TypeError, fn, f'{fn.name}() missing required argument {n!r}')
         for x, d in zip(a.kwonlyargs, a.kw_defaults):
             if x.arg not in bound and d is not None:
                 bound[x.arg] = ev(d, fv.genv)
         env.update(bound)
+        is_gen = getattr(fn, '_is_gen', None)
+        if is_gen is None:
+            is_gen = fn._is_gen = any(isinstance(n, (ast.Yield, ast.YieldFrom)) for n in _walk_own(fn))
+        if is_gen:
+            env['__yielded__'] = []
         try:
             self.block(fn.body, env)
         except Return as r:
-            return r.value
+            if not is_gen:
+                return r.value
+        if is_gen:
+            # a generator: its body runs when it is iterated; here it is run eagerly and the values collected
+            return env['__yielded__']
         return None
 
     def block(self, stmts, env):
@@ -105,6 +124,11 @@ class Interp:
         t = type(st)
         if t is ast.Expr:
             if isinstance(st.value, ast.Constant):
+                return
+            if isinstance(st.value, ast.Yield):
+                if '__yielded__' not in env:
+                    raise Unknown('yield outside a generator run')
+                env['__yielded__'].append(ev(st.value.value, env) if st.value.value is not None else None)
                 return
             ev(st.value, env)
         elif t is ast.Assign:
@@ -271,6 +295,16 @@ class ExcValue:
 
     def __str__(self):
         return f'<message of {self.e.name}>'
+
+
+def _walk_own(fn):
+    stack = list(fn.body)
+    while stack:
+        n = stack.pop()
+        yield n
+        for c in ast.iter_child_nodes(n):
+            if not isinstance(c, (ast.FunctionDef, ast.AsyncFunctionDef, ast.Lambda, ast.ClassDef)):
+                stack.append(c)
 
 
 class _Box(ast.AST):
